@@ -847,6 +847,11 @@ func writeEvidence(prop, tier string, seed int, sel []*Harness, results map[stri
 					"unsat": s.Discharged, "trivially_true": s.Trivial, "sat": s.Failed, "unknown": s.Unknown, "bounds": h.Bounds})
 			}
 		}
+		for k, c := range r.valSamples {
+			if k < 2 && len(samples) < 80 {
+				samples = append(samples, map[string]interface{}{"harness": h.ID, "kind": "inputs of a completed path chosen by the solver and replayed natively (translator validation)", "inputs": c.Values})
+			}
+		}
 		sitesTotal += len(r.StaticSites)
 		sitesReached += len(r.StaticSites) - len(r.Unreached)
 		outside = append(outside, prefixAll(h.ID+": ", h.Outside)...)
